@@ -892,6 +892,8 @@ func (h *vfE2H) exec(line string) {
 		h.drain()
 	case "f8":
 		h.doF8(ai(1), w[2])
+	case "f8req": // f8req K seq — the REQ | Empty | RequeuedMessage window (hook proto.req.beforeClientCount)
+		h.doF8Mode(ai(1), w[2], "req")
 	case "overshoot":
 		h.doOvershoot(ai(1))
 	case "lateanswer": // lateanswer A B seq fin|req|touch
